@@ -12,7 +12,9 @@
 #include <bee2/crypto/belt.h>
 #include <bee2/crypto/brng.h>
 #include <bee2/crypto/botp.h>
-#include "crypto/botp.c"	/* botp_ocra_st fields (ctr_len, p_len, s_len, q_max) for token validation */
+#include "crypto/botp.c"	/* botp_ocra_st fields (ctr_len, p_len, s_len, q_max) for token validation; botp_totp_st for `D` */
+#include "crypto/belt/belt_krp.c"	/* belt_krp_st members for the state dump `D` */
+#include "crypto/bash/bash_hash.c"	/* bash_hash_st members for the state dump `D` */
 #include <errno.h>
 static void handle(int argc, char** argv);
 #include "common.h"
@@ -75,6 +77,39 @@ static void st_move(void)
 	st_ = n;
 }
 static void* st_copy(void) { void* n = malloc(keep_ ? keep_ : 1); memcpy(n, st_, keep_); return n; }
+
+/* `D`: dump of the members of the state struct, scratch members included (krp, bhash, totp): the Lean side runs a
+   model with the same members (Refined.lean) and must print the same */
+static int dumpk_;	/* 0 none, 1 belt_krp_st, 2 bash_hash_st, 3 botp_totp_st */
+static int do_dump(void)
+{
+	if (dumpk_ == 1)
+	{
+		belt_krp_st* st = (belt_krp_st*)st_;
+		octet b[96];
+		memcpy(b, st->key, 32), memcpy(b + 32, st->block, 32), memcpy(b + 64, st->key_new, 32);
+		o_hex(b, 96);
+	}
+	else if (dumpk_ == 2)
+	{
+		bash_hash_st* st = (bash_hash_st*)st_;
+		char t[64];
+		octet b[384];
+		memcpy(b, st->s, 192), memcpy(b + 192, st->s1, 192);
+		o_hex(b, 384);
+		sprintf(t, ":%u:%u", (unsigned)st->pos, (unsigned)st->buf_len);
+		strcpy(obuf_ + olen_, t), olen_ += strlen(t);
+	}
+	else if (dumpk_ == 3)
+	{
+		botp_totp_st* st = (botp_totp_st*)st_;
+		octet b[50];
+		memcpy(b, st->t, 8), memcpy(b + 8, st->mac, 32), memcpy(b + 40, st->otp, 10);
+		o_hex(b, 50);
+	}
+	else return 0;
+	return 1;
+}
 
 /* split "a:b:c" in place; returns the number of fields (max 5, 99 = too many) */
 static int fields(char* t, char* f[5])
@@ -145,6 +180,7 @@ static int run_A(int argc, char** argv, int i0, size_t maxn, abs_f A, get_f G, v
 		size_t n;
 		char c;
 		if (!strcmp(argv[i], "m")) { st_move(); o_none(); continue; }
+		if (!strcmp(argv[i], "D")) { if (!do_dump()) return 0; continue; }
 		nf = fields(argv[i], f);
 		c = f[0][0];
 		if (nf != 2 || f[0][1]) return 0;
@@ -238,6 +274,7 @@ static int run_krp(int argc, char** argv, int i0, size_t klen)
 		size_t n, hn;
 		octet *h, out[32];
 		if (!strcmp(argv[i], "m")) { st_move(); o_none(); continue; }
+		if (!strcmp(argv[i], "D")) { if (!do_dump()) return 0; continue; }
 		nf = fields(argv[i], f);
 		if (nf != 3 || strcmp(f[0], "g") || !dec_ok(f[1]) || !hex_ok(f[2])) return 0;
 		n = (size_t)u_arg(f[1]);
@@ -419,6 +456,7 @@ static int run_totp(int argc, char** argv, int i0)
 		int nf;
 		char c;
 		if (!strcmp(argv[i], "m")) { st_move(); o_none(); continue; }
+		if (!strcmp(argv[i], "D")) { if (!do_dump()) return 0; continue; }
 		nf = fields(argv[i], f);
 		c = f[0][0];
 		if (f[0][1] || nf < 2 || !t_arg(f[1], &t)) return 0;
@@ -612,7 +650,7 @@ static void handle(int argc, char** argv)
 	size_t kn = 0, ivn = 0;
 	const char* b;
 	int ok = 0, keepiv = 0;
-	olen_ = 0, obuf_[0] = 0;
+	olen_ = 0, obuf_[0] = 0, dumpk_ = 0;
 	if (argc < 1) BAD();
 	b = argv[0];
 	if (!strcmp(b, "hl")) { op_hl(argc, argv); return; }
@@ -701,6 +739,7 @@ static void handle(int argc, char** argv)
 		KEY(1); IV(2); CHK(key_ok(kn) && ivn == 12);
 		st_new(beltKRP_keep()); beltKRPStart(st_, k, kn, iv);
 		DROP();
+		dumpk_ = 1;
 		ok = run_krp(argc, argv, 3, kn);
 	}
 	else if (!strcmp(b, "bhash"))
@@ -711,6 +750,7 @@ static void handle(int argc, char** argv)
 		if (l == 0 || l % 16 || l > 256) BAD();
 		st_new(bashHash_keep()); bashHashStart(st_, l);
 		DROP();
+		dumpk_ = 2;
 		ok = run_A(argc, argv, 2, l / 4, bashHashStepH, bashG, bashV);
 	}
 	else if (!strcmp(b, "prg"))
@@ -766,6 +806,7 @@ static void handle(int argc, char** argv)
 		KEY(2);
 		st_new(botpTOTP_keep()); botpTOTPStart(st_, dg, k, kn);
 		DROP();
+		dumpk_ = 3;
 		ok = run_totp(argc, argv, 3);
 	}
 	else if (!strcmp(b, "ocra"))
